@@ -507,17 +507,23 @@ def assemble_unit(unit_name, unit_dir, cfg, extracted, prelude_files, canary=Fal
                         o["lemma_first"] = True
                         A.functions.setdefault(cur[0], {"item": "@raw", "file": o["ofile"], "span": [ln, ln], "sha256": "", "rules": [], "lemma": True})
                     pend_name = None
+                body_open = False
                 if cur:
                     o["fn"], o["lemma"] = cur
+                    if t.rstrip() == "{" and not A.functions[cur[0]].get("_opened"):
+                        A.functions[cur[0]]["_opened"] = True
+                        body_open = True
                     if t.rstrip() == "}":
-                        if canary:
-                            canary_n[0] += 1
-                            A.lines.append(f"    assert(!vx_canary({canary_n[0]})); // CANARY {cur[0]}:lemma_end")
-                            A.origin.append({"k": "canary", "fn": cur[0], "id": f"{cur[0]}:lemma_end"})
                         A.functions[cur[0]]["span"][1] = ln
+                        A.functions[cur[0]].pop("_opened", None)
                         cur = None
                 A.lines.append(t)
                 A.origin.append(o)
+                if body_open and canary:
+                    # vacuity of the lemma's hypotheses: this must be reported failing
+                    canary_n[0] += 1
+                    A.lines.append(f"    assert(!vx_canary({canary_n[0]})); // CANARY {o['fn']}:lemma_requires")
+                    A.origin.append({"k": "canary", "fn": o["fn"], "id": f"{o['fn']}:lemma_requires"})
     for s_ in secs:
         if not s_.used and not getattr(s_, "optional", False):
             raise Undecided("anchor-lost", f"overlay section @{s_.kind} {' '.join(s_.args)} ({os.path.relpath(s_.path, VERIF)}:{s_.line_no}) matched nothing")
